@@ -111,9 +111,9 @@ def c_case(r):
     k = r["kind"]
     if k == "parse":
         o = r["out"]
-        return "CParse %s %s %s %s %s %s" % (cb(r["in"]), c_outcome(o["node"], c_node), c_outcome(o["pred"], c_pred),
-                                             c_outcome(o["lit"], c_lit), c_outcome(o["obj"], c_obj),
-                                             c_outcome(o["triple"], c_triple))
+        return "CParse %s %s %s %s %s %s %s" % (cb(r["in"]), c_outcome(o["node"], c_node), c_outcome(o["pred"], c_pred),
+                                                c_outcome(o["lit"], c_lit), c_outcome(o["obj"], c_obj),
+                                                c_outcome(o["triple"], c_triple), c_outcome(o["blit"], c_lit))
     if k == "value":
         vk = r["vk"]
         ret = "(Some %s)" % cb(r["retext"]) if r.get("retext") is not None else "None"
@@ -253,6 +253,8 @@ def check_laws(rows):
             from_parser = bi in parsed_floats
             if nan and not from_parser:
                 continue
+            if b"\n" in bytes.fromhex(ff):
+                fails.append({"law": "float text has a newline", "bits": b, "text": ff})
             cnt["float_roundtrip"] += 1
             if ff not in pfloat or int(pfloat[ff]) != bi:
                 fails.append({"law": "float roundtrip" + (" (accepted)" if from_parser else ""), "bits": b, "text": ff, "parsed": pfloat.get(ff)})
